@@ -23,6 +23,8 @@ SHARD = 300
 KINDS = {
     "main": dict(imports="From Coq Require Import String.\nFrom SS Require Import Base M_Targets.\nOpen Scope string_scope.\nOpen Scope list_scope.",
                  type="tcase", mismatch="mismatches", nontrivial="count_nontrivial"),
+    "fb": dict(imports="From Coq Require Import String.\nFrom SS Require Import Base M_Targets.\nOpen Scope string_scope.\nOpen Scope list_scope.",
+               type="fcase", mismatch="fmismatches", nontrivial="fcount_nontrivial"),
     "raw": dict(imports="From Coq Require Import String.\nFrom SS Require Import Base M_Targets.\nOpen Scope string_scope.\nOpen Scope list_scope.",
                 type="rcase", mismatch="rmismatches", nontrivial="rcount_nontrivial"),
 }
@@ -32,7 +34,9 @@ RULE = ("with-items of (a) hand-written programs covering every documented targe
         "loops/if) x random targets (names fast/global/cell, attributes, subscripts by const/name/expression, slices, "
         "positional and method calls, nested (starred) tuples/lists; 25% contain an unsupported form: arithmetic, walrus, "
         "keyword/starred call, tuple display, stepped slice), (c) every with-item of the standard library (quick: every "
-        "6th file). One case per BEFORE_WITH site (finally bodies are duplicated by the compiler). distinct = distinct "
+        "6th file), (d) thorough: the generated programs compiled by CPython 3.11 (version V311 of the compiler model), "
+        "(e) kind fb: every context of the suspended generated programs (static description + frame locals with object "
+        "identities -> reported varname; managers are pre-bound to locals in 25% of the items). One case per BEFORE_WITH site (finally bodies are duplicated by the compiler). distinct = distinct "
         "(program, site) descriptors; non-trivial = the item has a target other than a plain name")
 CONFIG = dict(
     coq=["C08"], level="proof",
@@ -57,7 +61,12 @@ CONFIG = dict(
                    "covered by the runtime oracle only)",
                    "soundness of describe on arbitrary (non-compiler) instruction streams is not claimed (DUP_TOP duplicates text)"],
     timeout={"quick": 900, "thorough": 5400},
-    NOTES=("start_line/skip-count are not modelled in Coq (M_Analysis belongs to C01); they are tied by locating the store "
+    NOTES=("Suspected finding (not in known_findings.json, cases carry _sig C08_const_repr_not_source and are reported under "
+           "extra_legs.suspected_finding_* instead of as violations): a constant whose repr is not source-equivalent in its "
+           "position: `as d[...]` -> 'd[Ellipsis]' (Name, not the constant), `as (1).x` -> '1.x' and `as (-1).x` -> '-1.x' "
+           "(do not parse / parse differently). Comparison with the ast is modulo what the compiler erases: List vs Tuple "
+           "targets, omitted slice bound vs None, private-name mangling inside classes. "
+           "start_line/skip-count are not modelled in Coq (M_Analysis belongs to C01); they are tied by locating the store "
            "sequence independently (END_SEND / exception table via dis) and comparing analyze_with_blocks' varname and "
            "start_line per site."),
 )
@@ -126,6 +135,10 @@ def specials():
     out.append(_prog([[{"t": None}], [{"t": unsup[1]}]], is_async=True, asyncs=[True, True], wraps=["finally", "finally"]))
     # async with inside finally (CLEANUP_THROW before END_SEND on 3.12), multi-line context expression
     out.append(_prog([[tuples[5]], [attrs[2], None]], is_async=True, asyncs=[True, True], wraps=["finally", "tryexc"], layouts=["exprml", "exprml"]))
+    # EXTENDED_ARG in front of the LOAD_CONST None of BEFORE_ASYNC_WITH's await
+    big = _prog([[a, tuples[10]], [attrs[2], None]], is_async=True, asyncs=[True, True], layouts=["paren", "single"])
+    big["bigconsts"] = True
+    out.append(big)
     # attribute of a constant: compiles, cannot run
     so = _prog([[["tattr", C("'s'"), "y"], ["tattr", C("None"), "y"], ["tattr", C("(1, 2)"), "y"]]])
     so["static_only"] = True
@@ -198,7 +211,10 @@ def make_inputs(tier, seed):
         progs.append(G.gen_program(rng, tdepth=2 if n % 4 else 3))
     for spec in progs:
         for n in range(len(gen_sites(spec))):
-            yield {"src": "gen", "spec": spec, "site": n}
+            d = {"src": "gen", "spec": spec, "site": n}
+            if spec.get("bigconsts"):
+                d["_kind"] = "raw"  # EXTENDED_ARG prefixes of constants/names are outside the compiler model
+            yield d
     for spec in const_finding_specials():
         for n in range(len(gen_sites(spec))):
             yield {"src": "gen", "spec": spec, "site": n, "_sig": SIG_CONST}
@@ -214,6 +230,12 @@ def make_inputs(tier, seed):
             _OTHER[json.dumps(spec, sort_keys=True)] = got
             for k in range(len(got)):
                 yield {"src": "gen", "py": "3.11", "spec": spec, "site": k}
+    # locals fallback: contexts of suspended frames (static description + locals -> final varname)
+    for spec in progs[: (len(specials()) + (80 if tier == "quick" else 1200))]:
+        if spec.get("static_only"):
+            continue
+        for k in range(sum(len(lv["items"]) for lv in spec["levels"])):
+            yield {"src": "rt", "spec": spec, "ctx": k, "_kind": "fb"}
     root, files = stdlib_files()
     stride = 6 if tier == "quick" else 1
     for n, rel in enumerate(files):
@@ -227,7 +249,28 @@ def make_inputs(tier, seed):
 _OTHER = {}
 
 
+_RT = {}
+
+
+def rt_details(spec):
+    key = json.dumps(spec, sort_keys=True)
+    if key not in _RT:
+        det = []
+        k, probs, st = G.runtime_check(spec, details=det)
+        described = {}
+        for o in gen_sites(spec):
+            if o.get("item_id") is not None:
+                described.setdefault(o["item_id"], o["obs"])
+        for d in det:
+            d["described"] = described.get(d["item_id"], "<missing>")
+        _RT[key] = det
+    return _RT[key]
+
+
 def run_case(desc):
+    if desc["src"] == "rt":
+        det = rt_details(desc["spec"])
+        return det[desc["ctx"]] if desc["ctx"] < len(det) else {"missing": True}
     if desc.get("py") == "3.11":
         key = json.dumps(desc["spec"], sort_keys=True)
         if key not in _OTHER:
@@ -240,6 +283,12 @@ def run_case(desc):
 
 
 def coq_case(desc, obs):
+    if desc["src"] == "rt":
+        if obs.get("missing"):
+            return "(DFuel, [], 0, None)"
+        loc = "[" + "; ".join("(%s, %d)" % (G.cstr(n), i) for n, i in obs["locals"]) + "]"
+        v = "None" if obs["varname"] is None else "(Some %s)" % G.cstr(obs["varname"])
+        return "(%s, %s, %d, %s)" % (G.coq_dres(obs["described"]), loc, obs["obj"], v)
     code = "[" + "; ".join(obs["code"]) + "]"
     if desc.get("_kind", "main") == "raw":
         return "(%s, %s)" % (code, G.coq_dres(obs["obs"]))
@@ -247,6 +296,8 @@ def coq_case(desc, obs):
 
 
 def direct_oracle(desc, obs):
+    if desc["src"] == "rt":
+        return "context missing from the extracted stack" if obs.get("missing") else None
     if desc.get("_sig") == SIG_CONST:
         return None  # reported through extra_legs' info (suspected finding), see const_finding_report
     if not obs.get("matched"):
@@ -267,6 +318,8 @@ def direct_oracle(desc, obs):
 
 
 def classify(desc, obs):
+    if desc["src"] == "rt":
+        return ["rt:fb"]
     labs = [desc["src"] + ":" + desc.get("_kind", "main") + (":py" + desc["py"] if desc.get("py") else "")]
     if not obs.get("matched"):
         labs.append("unmatched-to-ast")
